@@ -699,6 +699,48 @@ def special_obligation(job, concrete=None):
         aliases = []
         regs = [(s, da, lambda v, e: (v & 0xF0) | (((v & 0xF) + e["din"]) & 0xF), 0x0F), (s, db, lambda v, e: (v & 0x0F) | ((((v >> 4) ^ e["din"]) & 0xF) << 4), 0xF0)]
         ins = {"din": din}
+    elif kind == "multi-control":
+        # one ResetInserter / EnableInserter controlling SEVERAL domains of the wrapped module at once
+        da, db = ClockDomain("a", reset_less=True), ClockDomain("b", reset_less=True, clk_edge=job.get("edge", "pos"))
+        top.domains += [da, db]
+        x, y, z = Signal(3, name="x", init=5), Signal(3, name="y", init=1), Signal(2, name="z", init=2)
+        din = Signal(3, name="din")
+        ra, rb, ea, eb = (Signal(1, name=n) for n in ("ra", "rb", "ea", "eb"))
+
+        class Inner2(Elaboratable):
+            def elaborate(self, platform):
+                m = Module()
+                m.d.a += x.eq(x + din)
+                m.d.b += y.eq(y ^ din)
+                sub = Module()
+                sub.d.b += z.eq(z + 1)
+                m.submodules.sub = sub
+                return m
+        order = job.get("order", "RE")
+        e_ = Inner2()
+        for kind_ in order[::-1]:
+            e_ = (ResetInserter({"a": ra, "b": rb}) if kind_ == "R" else EnableInserter({"a": ea, "b": eb}))(e_)
+        top.submodules.inner = e_
+
+        def ctl(step, rsig, esig, init):
+            # reset outermost ("RE"): reset wins over a de-asserted enable; enable outermost ("ER"): a disabled register holds
+            def fn(v, e):
+                if order == "R":
+                    return sym_ite(e[rsig] != 0, init, step(v, e))
+                if order == "E":
+                    return sym_ite(e[esig] != 0, step(v, e), v)
+                if order == "RE":
+                    return sym_ite(e[rsig] != 0, init, sym_ite(e[esig] != 0, step(v, e), v))
+                return sym_ite(e[esig] != 0, sym_ite(e[rsig] != 0, init, step(v, e)), v)
+            return fn
+        from vlib.pysym import sym_ite
+        names_ = {"R": "ResetInserter({a: ra, b: rb})", "E": "EnableInserter({a: ea, b: eb})"}
+        text = "(".join(names_[c_] for c_ in order) + "(D" + ")" * len(order) + f"; D: x += din in a, y ^= din in b, child z += 1 in b ({job.get('edge', 'pos')}edge)"
+        toggles = [da.clk, db.clk]
+        aliases = []
+        regs = [(x, da, ctl(lambda v, e: (v + e["din"]) & 7, "ra", "ea", 5), 7), (y, db, ctl(lambda v, e: (v ^ e["din"]) & 7, "rb", "eb", 1), 7),
+                (z, db, ctl(lambda v, e: (v + 1) & 3, "rb", "eb", 2), 3)]
+        ins = {"din": din, "ra": ra, "rb": rb, "ea": ea, "eb": eb}
     else:
         mapping = job["map"]
         doms = {n: ClockDomain(n) for n in ("sync", "b", "c")}
@@ -917,6 +959,8 @@ def main(tier, seed):
         jobs.append({"id": f"special-late-bound-{k}", "what": "special", "kind": "late-bound", "edge": edge, "async": asy, "child_uses_cs": cs})
     for k, (sg, init, basy, edge) in enumerate([(False, 0x5A, False, "pos"), (True, 0xC3, False, "neg"), (False, 0xFF, True, "pos"), (True, 0x81, True, "pos")]):
         jobs.append({"id": f"special-split-{k}", "what": "special", "kind": "split", "signed": sg, "init": init, "b_async": basy, "edge": edge})
+    for k, (order, edge) in enumerate([("RE", "pos"), ("ER", "pos"), ("RE", "neg"), ("R", "pos"), ("E", "pos")]):
+        jobs.append({"id": f"special-multi-control-{k}", "what": "special", "kind": "multi-control", "order": order, "edge": edge})
     for k, mp in enumerate([{"sync": "b", "b": "sync"}, {"sync": "b", "b": "c"}, {"sync": "c"}, {"b": "c", "sync": "b"}, {"b": "sync"}, {"sync": "c", "b": "c"}, {"sync": "b"}]):
         jobs.append({"id": f"special-rename-multi-{k}", "what": "special", "kind": "rename-multi", "map": mp})
     results, stats = run.run_jobs(job_fn, jobs)
